@@ -417,6 +417,7 @@ def run(ck: Check):
     rng = ck.rng
 
     # ---------------------------------------------------------------- (1) translator + proofs
+    ck.regenerate(["PrepareGen"])
     ok_t, out_t = ck.regenerate_schemas()
     ok_p, out_p = ck.coq_props("C11", timeout=1200)
     import time as _time
